@@ -2178,6 +2178,7 @@ func (ff *FuncFacts) assign(x *ast.AssignStmt, st *State) *State {
 		return st
 	}
 	info := ff.info()
+	pre := st // the state before the assignment kills anything
 	var lts []*Term
 	for _, l := range x.Lhs {
 		if id, ok := l.(*ast.Ident); ok && id.Name == "_" {
@@ -2236,6 +2237,31 @@ func (ff *FuncFacts) assign(x *ast.AssignStmt, st *State) *State {
 		}
 		st = ff.killTerm(st, lt)
 	}
+	// x = append(y, e...): non-nil when y was, or when at least one element is added
+	if len(x.Rhs) == len(x.Lhs) && (x.Tok == token.ASSIGN || x.Tok == token.DEFINE) {
+		for i := range x.Lhs {
+			lt := lts[i]
+			if lt == nil || !(lt.K == 'v' || lt.K == 'f') {
+				continue
+			}
+			call, ok := unparen(x.Rhs[i]).(*ast.CallExpr)
+			if !ok || len(call.Args) < 1 {
+				continue
+			}
+			id, isId := unparen(call.Fun).(*ast.Ident)
+			if !isId {
+				continue
+			}
+			if b, isB := info.Uses[id].(*types.Builtin); !isB || b.Name() != "append" {
+				continue
+			}
+			a0 := ff.term(call.Args[0])
+			wasNonNil := a0 != nil && pre != nil && (pre.HasFact(mkFact(false, "eq", a0, TNil())) || pre.HasFact(mkFact(false, "eq", TNil(), a0)))
+			if wasNonNil || (len(call.Args) >= 2 && !call.Ellipsis.IsValid()) {
+				st = st.add(mkFact(false, "eq", lt, TNil()))
+			}
+		}
+	}
 	if len(x.Rhs) == len(x.Lhs) && (x.Tok == token.ASSIGN || x.Tok == token.DEFINE) {
 		for i := range x.Lhs {
 			lt := lts[i]
@@ -2283,6 +2309,19 @@ func (ff *FuncFacts) assign(x *ast.AssignStmt, st *State) *State {
 				if call, ok := unparen(x.Rhs[i]).(*ast.CallExpr); ok {
 					if tv, isType := info.Types[call.Fun]; !isType || !tv.IsType() {
 						st = st.add(mkFact(true, "eq", lt, &Term{K: 'r', Name: "res0", Pos: call.Lparen}))
+					}
+					// x = append(x, e...): non-nil when x was, or when at least one element is added
+					if id, isId := unparen(call.Fun).(*ast.Ident); isId && len(call.Args) >= 1 {
+						if b, isB := info.Uses[id].(*types.Builtin); isB && b.Name() == "append" {
+							a0 := ff.term(call.Args[0])
+							wasNonNil := a0 != nil && pre != nil && (pre.HasFact(mkFact(false, "eq", a0, TNil())) || pre.HasFact(mkFact(false, "eq", TNil(), a0)))
+							if wasNonNil || (len(call.Args) >= 2 && !call.Ellipsis.IsValid()) {
+								st = st.add(mkFact(false, "eq", lt, TNil()))
+							}
+							if os.Getenv("GALINT_DEBUG_APPEND") != "" {
+								fmt.Fprintln(os.Stderr, "append:", lt, wasNonNil, len(call.Args), st)
+							}
+						}
 					}
 				}
 			}
